@@ -47,7 +47,11 @@ def main(only=""):
         mj = os.path.join(sd, name, "meta.json")
         if os.path.exists(mj):
             j = json.load(open(mj))
-            meta.append(dict(name="seeded-" + name, property=j["property"], patch=os.path.join(sd, name, "patch.diff")))
+            # a change filed under one property whose defect belongs to another (C06-d: the password operation
+            # leaves stray bits, the loader is right to refuse them) is expected from the checks that own it
+            own = j["property"] if j["property"] in j.get("detected_by", [j["property"]]) else \
+                ([c for c in j.get("detected_by", []) if c[:1] == "C" and len(c) == 3] or [j["property"]])[0]
+            meta.append(dict(name="seeded-" + name, property=own, filed_under=j["property"], patch=os.path.join(sd, name, "patch.diff")))
     bad = 0
     rows = []
     for m in meta:
